@@ -118,6 +118,20 @@ class ReaderEval(object):
                 if lo == 'x' or hi == 'x': return TOPS('slice')
                 return Sym('list', items=v.items[lo:hi])
             return TOPS('subscript')
+        if isinstance(e, ast.ListComp) and len(e.generators) == 1 and not e.generators[0].ifs and \
+           isinstance(e.generators[0].target, ast.Name):
+            src = self.expr(e.generators[0].iter)
+            if src.kind == 'list':
+                out = []
+                tname = e.generators[0].target.id
+                saved = self.env.get(tname)
+                for it in src.items:
+                    self.env[tname] = it
+                    out.append(self.expr(e.elt))
+                if saved is None: self.env.pop(tname, None)
+                else: self.env[tname] = saved
+                return Sym('list', items=out)
+            return TOPS('comprehension')
         if isinstance(e, ast.IfExp):
             a, b = self.expr(e.body), self.expr(e.orelse)
             return a if repr(a) == repr(b) else (a if b.kind == 'none' else (b if a.kind == 'none' else TOPS('ifexp')))
@@ -268,6 +282,11 @@ class WriterEval(object):
                 elif isinstance(t, ast.Tuple) and isinstance(v, ast.Tuple) and len(t.elts) == len(v.elts):
                     for a, b in zip(t.elts, v.elts):
                         if isinstance(a, ast.Name): self.alias_pos.setdefault(a.id, []).append((n.lineno, b))
+            if isinstance(n, ast.AugAssign) and isinstance(n.op, ast.Add) and isinstance(n.target, ast.Name):
+                # vals += more  ==  vals = <vals as of before this line> + more
+                b = ast.BinOp(left=ast.Name(id=n.target.id, ctx=ast.Load()), op=ast.Add(), right=n.value)
+                ast.copy_location(b, n); ast.fix_missing_locations(b)
+                self.alias_pos.setdefault(n.target.id, []).append((n.lineno, b))
         for k in self.alias_pos: self.alias_pos[k].sort(key=lambda x: x[0])
         self.alias = _AliasView(self)
 
@@ -278,8 +297,13 @@ class WriterEval(object):
         if not cands: return None
         best = cands[-1]
         # `if c: a = x else: a = None`: the None branch only makes the value optional
-        if isinstance(best[1], ast.Constant) and best[1].value is None:
-            nn = [c for c in cands if not (isinstance(c[1], ast.Constant) and c[1].value is None)]
+        def noneish(v):
+            if isinstance(v, ast.Constant): return v.value is None
+            if isinstance(v, (ast.List, ast.Tuple)): return bool(v.elts) and all(noneish(x) for x in v.elts)
+            if isinstance(v, ast.BinOp) and isinstance(v.op, ast.Mult): return noneish(v.left)
+            return False
+        if noneish(best[1]):
+            nn = [c for c in cands if not noneish(c[1])]
             if nn: best = nn[-1]
         return best
 
@@ -295,8 +319,28 @@ class WriterEval(object):
             return self.items(e.left, depth) * e.right.value
         if isinstance(e, ast.Call) and call_name(e) == 'list' and e.args:
             return self.items(e.args[0], depth)
-        if isinstance(e, ast.Name) and e.id in self.alias and e.id not in self.vartype:
-            return self.items(self.alias[e.id], depth + 1)
+        if isinstance(e, ast.Name) and e.id not in self.vartype:
+            hit = self.alias_at(e.id)
+            if hit is not None:
+                save = self.at_line
+                self.at_line = hit[0]
+                try: return self.items(hit[1], depth + 1)
+                finally: self.at_line = save
+        if isinstance(e, ast.ListComp) and len(e.generators) == 1 and not e.generators[0].ifs and \
+           isinstance(e.generators[0].target, ast.Name):
+            # [f(v) for v in X]: one item per element of X, described by a template in the element index
+            src = self.path(e.generators[0].iter)
+            if src is not None:
+                v = e.generators[0].target.id
+                saved = self.vartype.get(v)
+                self.vartype[v] = src + '[{j}]'
+                try: el = self.scalar(e.elt, depth + 1)
+                finally:
+                    if saved is None: self.vartype.pop(v, None)
+                    else: self.vartype[v] = saved
+                if el.kind == 'attr':
+                    t = Sym('attr', path=el.path); t.wr = el.wr; t.template = True
+                    return [('rest', t)]
         if isinstance(e, ast.BinOp) and isinstance(e.op, ast.Div) and norm(e.right) in self.unit_names:
             inner = self.items(e.left, depth)
             return [('rest', x[1].wrap('DivUnit')) if isinstance(x, tuple) else x.wrap('DivUnit') for x in inner]
@@ -321,8 +365,13 @@ class WriterEval(object):
             return TOPS('call')
         if isinstance(e, ast.BinOp) and isinstance(e.op, ast.Div) and norm(e.right) in self.unit_names:
             return self.scalar(e.left, depth).wrap('DivUnit')
-        if isinstance(e, ast.Name) and e.id in self.alias and e.id not in self.vartype and depth < 6:
-            return self.scalar(self.alias[e.id], depth + 1)
+        if isinstance(e, ast.Name) and e.id not in self.vartype and depth < 6:
+            hit = self.alias_at(e.id)
+            if hit is not None:
+                save = self.at_line
+                self.at_line = hit[0]
+                try: return self.scalar(hit[1], depth + 1)
+                finally: self.at_line = save
         if isinstance(e, ast.Subscript) and isinstance(e.value, ast.Name) and const_str(e.slice) is not None and depth < 6:
             hit = self.alias_at(norm(e))
             if hit is not None:
@@ -333,8 +382,11 @@ class WriterEval(object):
         if isinstance(e, ast.Subscript) and isinstance(e.value, ast.Name) and e.value.id in self.alias and \
            isinstance(e.slice, ast.Constant) and isinstance(e.slice.value, int) and depth < 6:
             # pos[0] with pos = node.pos / scale
-            src = self.alias[e.value.id]
-            inner = self.scalar(src, depth + 1)
+            hit = self.alias_at(e.value.id)
+            save = self.at_line
+            self.at_line = hit[0]
+            try: inner = self.scalar(hit[1], depth + 1)
+            finally: self.at_line = save
             if inner.kind == 'attr':
                 s = Sym('attr', path='%s[%d]' % (inner.path, e.slice.value)); s.wr = inner.wr
                 return s
@@ -355,8 +407,78 @@ class WriterEval(object):
         base = its[k][1]
         mid = []
         for j in range(n):
-            if base.kind == 'attr':
+            if base.kind == 'attr' and getattr(base, 'template', False):
+                s = Sym('attr', path=base.path.replace('{j}', str(j))); s.wr = base.wr
+            elif base.kind == 'attr':
                 s = Sym('attr', path='%s[%d]' % (base.path, j)); s.wr = base.wr
             else: s = base
             mid.append(s)
         return its[:k] + mid + its[k + 1:]
+
+
+# ---------------------------------------------------------------------------
+def _blocks(fnode):
+    out = []
+    for n in ast.walk(fnode):
+        for f in ('body', 'orelse', 'finalbody'):
+            b = getattr(n, f, None)
+            if isinstance(b, list) and b and isinstance(b[0], ast.stmt): out.append(b)
+    return out
+
+
+def find_destructure(fi, kind, kinds_alt=()):
+    """(assign stmt, enclosing block) for `targets = F.parse_string(line, kind)` / `= F.read_values(kind)`"""
+    for blk in _blocks(fi.node):
+        for st in blk:
+            if isinstance(st, ast.Assign) and isinstance(st.value, ast.Call) and call_name(st.value) in ('parse_string', 'read_values'):
+                c = st.value
+                k = c.args[1] if call_name(c) == 'parse_string' else c.args[0]
+                if const_str(k) == kind or const_str(k) in kinds_alt: return st, blk
+    return None, None
+
+
+def reader_map(prog, fi, kind, clsname, nfields, unit_names=('self.unit_scale',)):
+    """field index -> [(attr path, wrappers)], the destructuring statement, and the set of field
+    indices that only steer control flow (counts, flags)."""
+    st, blk = find_destructure(fi, kind)
+    if st is None: raise AnalysisError('%s: no destructuring of record %s' % (fi.short, kind))
+    ev = ReaderEval(prog, fi, unit_names)
+    ev.bind_fields(st.targets[0], nfields)
+    fieldnames = dict((k, v.index) for k, v in ev.env.items() if v.kind == 'field')
+    result = {}
+    state = {'obj': None, 'done': False}
+
+    def has_ctor(node):
+        return [c for c in ast.walk(node) if isinstance(c, ast.Call) and isinstance(c.func, ast.Name) and c.func.id == clsname]
+
+    def process(stmts):
+        for s in stmts:
+            ctor = has_ctor(s)
+            if ctor and not state['done']:
+                if isinstance(s, (ast.If, ast.For, ast.While, ast.Try)):
+                    # follow the branch that constructs the object
+                    for part in (s.body, getattr(s, 'orelse', [])):
+                        if any(has_ctor(x) for x in part):
+                            process(part); break
+                    continue
+                m = reader_ctor_map(prog, ev, ctor[0], clsname)
+                for k, v in m.items(): result.setdefault(k, []).extend(v)
+                state['done'] = True
+                if isinstance(s, ast.Assign) and isinstance(s.targets[0], ast.Name) and s.value is ctor[0]:
+                    state['obj'] = s.targets[0].id
+                continue
+            if state['done'] and state['obj'] and isinstance(s, ast.Assign) and isinstance(s.targets[0], ast.Attribute) \
+               and isinstance(s.targets[0].value, ast.Name) and s.targets[0].value.id == state['obj']:
+                flatten_dest(ev.expr(s.value), s.targets[0].attr, result)
+                continue
+            ev.assign(s)
+    process(blk[blk.index(st) + 1:])
+    if not state['done']:
+        raise AnalysisError('%s: no %s(...) construction after reading record %s' % (fi.short, clsname, kind))
+    # control fields: bound names that are only loaded in tests / ranges
+    consumed = set()
+    for s in blk[blk.index(st) + 1:]:
+        for n in ast.walk(s):
+            if isinstance(n, ast.Name) and isinstance(n.ctx, ast.Load) and n.id in fieldnames:
+                consumed.add(fieldnames[n.id])
+    return result, st, consumed
